@@ -9,7 +9,7 @@
 (* Mode "code" is the implementation; the other modes are mutants that the *)
 (* sensitivity configurations require to fail.                             *)
 (***************************************************************************)
-EXTENDS Naturals, Sequences, TLC, Json
+EXTENDS Naturals, Sequences, TLC, Json, FormatterRules
 
 CONSTANTS Headers,    \* subset of BOOLEAN: header comment enabled?
           NRaws,      \* numbers of raw lines explored
@@ -22,10 +22,7 @@ vars == <<header, nraw, outcome, pc, i, emitted, wres>>
 Init == /\ header \in Headers /\ nraw \in NRaws /\ outcome \in Outcomes
         /\ pc = "header" /\ i = 0 /\ emitted = <<>> /\ wres = "none"
 
-Raw(n) == <<"raw", n>>
-Prelude(h, n) == (IF h THEN <<<<"header">>>> ELSE <<>>)
-                 \o [j \in 1..n |-> Raw(j)]
-                 \o (IF n > 0 THEN <<<<"sep">>>> ELSE <<>>)
+Prelude(h, n) == PreludeSegs(h, n)
 
 EmitHeader == /\ pc = "header"
               /\ emitted' = IF header THEN Append(emitted, <<"header">>) ELSE emitted
@@ -47,7 +44,7 @@ Stutter == pc = "done" /\ UNCHANGED vars
 Next == EmitHeader \/ EmitRaw \/ EmitSep \/ EmitBody \/ Stutter
 Spec == Init /\ [][Next]_vars
 
-BodyKind == IF outcome = "Formatted" THEN "formatted" ELSE "tokens"
+BodyKind == BodyContent(IF outcome = "Err" THEN "Fallback" ELSE outcome)
 Expected == Prelude(header, nraw) \o <<<<"body", BodyKind>>>>
 \* each segment exactly once and in order; the fallback body is the unformatted tokens
 OnceInOrder == pc = "done" => emitted = Expected /\ wres = "Ok"
